@@ -1,6 +1,9 @@
 package accounting
 
 import (
+	"os"
+	"strings"
+
 	"verif/harness/internal/vrun"
 )
 
@@ -16,7 +19,22 @@ func Run(c *vrun.Ctx) error {
 	c.Assume("SHA-256 is injective on the inputs used (the abstract hash is a free term algebra); witness-commitment layouts never place a hash byte where the magic prefix is looked for")
 	c.Assume("CalcSequenceLock with mempool=false is asked about the tip block itself as far as the deployment state goes (that is what the exported call evaluates); the consensus path is covered through CheckConnectBlockTemplate on the next block")
 	c.Assume("UTXO views for sigop and sequence-lock queries are built from NewUtxoEntry with the enumerated heights; the block-level BIP68 rows spend real coinbase outputs of the replayed chain")
-	subs := []func(*vrun.Ctx) error{runMerkle, runWeight, runSigOps, runLocks, runBip68}
+	all := []struct {
+		name string
+		f    func(*vrun.Ctx) error
+	}{{"merkle", runMerkle}, {"weight", runWeight}, {"sigops", runSigOps}, {"locks", runLocks}, {"bip68", runBip68}}
+	var subs []func(*vrun.Ctx) error
+	// development aid: VERIF_C13_PARTS=merkle,locks runs only those parts (the
+	// evidence then says so and does not claim the whole property)
+	parts := os.Getenv("VERIF_C13_PARTS")
+	for _, p := range all {
+		if parts == "" || strings.Contains(","+parts+",", ","+p.name+",") {
+			subs = append(subs, p.f)
+		}
+	}
+	if parts != "" {
+		c.Assume("PARTIAL RUN (VERIF_C13_PARTS=" + parts + "): only the named specifications were checked")
+	}
 	errs := make(chan error, len(subs))
 	for _, f := range subs {
 		go func(f func(*vrun.Ctx) error) { errs <- f(c) }(f)
@@ -30,7 +48,7 @@ func Run(c *vrun.Ctx) error {
 	if first != nil {
 		return first
 	}
-	c.Ev.Coverage.Exhaustive = true
+	c.Ev.Coverage.Exhaustive = parts == ""
 	c.Ev.Coverage.Explanation = "exhaustive means: TLC enumerated the complete state space of the five specifications for the tier's constants and every one of those states was replayed into the btcd code. " +
 		"It does not mean all transactions, scripts or histories: the bounds are the case sets written in the specifications."
 	return nil
